@@ -10,6 +10,9 @@ pub fn expand(input: &DeriveInput, trait_name: &str) -> TokenStream {
     let trait_ident = format_ident!("{trait_name}");
     let method_name = trait_name.to_lowercase();
     let method_ident = format_ident!("{method_name}");
+    // Fully qualified, so that an inherent method of the same name on a field's type is never
+    // picked instead.
+    let method = quote! { derive_more::core::ops::#trait_ident::#method_ident };
     let input_type = &input.ident;
 
     let generics = add_extra_type_param_bound_op_output(&input.generics, &trait_ident);
@@ -19,16 +22,16 @@ pub fn expand(input: &DeriveInput, trait_name: &str) -> TokenStream {
         Data::Struct(ref data_struct) => match data_struct.fields {
             Fields::Unnamed(ref fields) => (
                 quote! { #input_type #ty_generics },
-                tuple_content(input_type, &unnamed_to_vec(fields), &method_ident),
+                tuple_content(input_type, &unnamed_to_vec(fields), &method),
             ),
             Fields::Named(ref fields) => (
                 quote! { #input_type #ty_generics },
-                struct_content(input_type, &named_to_vec(fields), &method_ident),
+                struct_content(input_type, &named_to_vec(fields), &method),
             ),
             _ => panic!("Unit structs cannot use derive({trait_name})"),
         },
         Data::Enum(ref data_enum) => {
-            enum_output_type_and_content(input, data_enum, &method_ident)
+            enum_output_type_and_content(input, data_enum, &method_ident, &method)
         }
 
         _ => panic!("Only structs and enums can use derive({trait_name})"),
@@ -53,14 +56,14 @@ pub fn expand(input: &DeriveInput, trait_name: &str) -> TokenStream {
 fn tuple_content<T: ToTokens>(
     input_type: &T,
     fields: &[&Field],
-    method_ident: &Ident,
+    method: &TokenStream,
 ) -> TokenStream {
     let mut exprs = vec![];
 
     for i in 0..fields.len() {
         let i = Index::from(i);
-        // generates `self.0.add()`
-        let expr = quote! { self.#i.#method_ident() };
+        // generates `Not::not(self.0)`
+        let expr = quote! { #method(self.#i) };
         exprs.push(expr);
     }
 
@@ -70,15 +73,15 @@ fn tuple_content<T: ToTokens>(
 fn struct_content(
     input_type: &Ident,
     fields: &[&Field],
-    method_ident: &Ident,
+    method: &TokenStream,
 ) -> TokenStream {
     let mut exprs = vec![];
 
     for field in fields {
         // It's safe to unwrap because struct fields always have an identifier
         let field_id = field.ident.as_ref();
-        // generates `x: self.x.not()`
-        let expr = quote! { #field_id: self.#field_id.#method_ident() };
+        // generates `x: Not::not(self.x)`
+        let expr = quote! { #field_id: #method(self.#field_id) };
         exprs.push(expr)
     }
 
@@ -89,11 +92,12 @@ fn enum_output_type_and_content(
     input: &DeriveInput,
     data_enum: &DataEnum,
     method_ident: &Ident,
+    method: &TokenStream,
 ) -> (TokenStream, TokenStream) {
     let input_type = &input.ident;
     let (_, ty_generics, _) = input.generics.split_for_impl();
     let mut matches = vec![];
-    let mut method_iter = iter::repeat(method_ident);
+    let mut method_iter = iter::repeat(method);
     // If the enum contains unit types that means it can error.
     let has_unit_type = data_enum.variants.iter().any(|v| v.fields == Fields::Unit);
 
@@ -109,7 +113,7 @@ fn enum_output_type_and_content(
                 let vars: &Vec<_> =
                     &(0..size).map(|i| format_ident!("__{i}")).collect();
                 let method_iter = method_iter.by_ref();
-                let mut body = quote! { #subtype(#(#vars.#method_iter()),*) };
+                let mut body = quote! { #subtype(#(#method_iter(#vars)),*) };
                 if has_unit_type {
                     body = quote! { derive_more::core::result::Result::Ok(#body) }
                 }
@@ -123,7 +127,7 @@ fn enum_output_type_and_content(
             Fields::Named(ref fields) => {
                 // The pattern that is outputted should look like this:
                 // (Subtype{a: __l_a, ...} => {
-                //     Ok(Subtype{a: __l_a.neg(__r_a), ...})
+                //     Ok(Subtype{a: Neg::neg(__l_a), ...})
                 // }
                 let field_vec = named_to_vec(fields);
                 let size = field_vec.len();
@@ -135,7 +139,7 @@ fn enum_output_type_and_content(
                     &(0..size).map(|i| format_ident!("__{i}")).collect();
                 let method_iter = method_iter.by_ref();
                 let mut body = quote! {
-                    #subtype{#(#field_names: #vars.#method_iter()),*}
+                    #subtype{#(#field_names: #method_iter(#vars)),*}
                 };
                 if has_unit_type {
                     body = quote! { derive_more::core::result::Result::Ok(#body) }
